@@ -142,6 +142,13 @@ def variant_ok(operator, variant, target):
 
 
 def floors(tier):
+    k = 1 if tier == "quick" else 10
+    f = _floors(k)
+    f["comparisons"] = {o: n * k for o, n in f["comparisons"].items()}
+    return f
+
+
+def _floors(k):
     return {
         "comparisons": {
             "reject.raises": 150,
@@ -175,8 +182,8 @@ def floors(tier):
         ],
         "reach": ["%s:%s" % a for a in ANCHORS],
         "strata": ["%s|%s" % p for p in REQUIRED_PAIRS] + ["mode|warm", "mode|cold", "follow-valid", "rejected-at-start", "rejected-at-end"],
-        "sets": {"operator_variant": len(ALL_VARIANTS), "exception_types": 8},
-        "distinct_nontrivial": 150,
+        "sets": {"operator_variant": len(ALL_VARIANTS), "exception_types": 8, "source_detail": 20},
+        "distinct_nontrivial": 150 * k,
     }
 
 
@@ -1431,6 +1438,9 @@ def reject_step(ctx, case, A, B):
     ctx.op("malformed:" + case["operator"])
     ctx.add_to_set("operator_variant", "%s|%s" % (case["operator"], case["variant"]))
     ctx.stratum(case["operator"], case["target"])
+    if case["bad"][0] in ("add_error", "add_matrix_error"):
+        a = case["bad"][1]
+        ctx.add_to_set("source_detail", "%s|%s|%s|axis=%s|rel=%s|ref=%s" % (case["operator"], case["bad"][0], a.get("matrix_type", "-"), gen.norm_axis(a.get("axis")), a.get("relative"), a.get("reference") if A.kind == "fit" else "data"))
     ctx.check(
         "reject.raises", exc is not None,
         lambda: {"what": "malformed call was accepted", "operator": case["operator"], "variant": case["variant"], "target": case["target"], "bad": case["bad"], "info": case.get("info")},
